@@ -152,7 +152,7 @@ Record scfg := {
   proto : str;
   max_clients : N; max_subs : N; max_payload_cfg : N; max_inflight : N; max_message : N;
   keepalive : N; min_keepalive : N; max_conns : N;
-  pool_budget : N }.
+  pool_budget : N; max_channels : N }.
 Definition auth_required (c : scfg) : bool := has_mod c && op_auth c.
 
 Record state := {
@@ -337,6 +337,9 @@ Section Handlers.
         | None => fail c (PErr None "BAD_REQUEST")
         | Some on_behalf =>
             if negb (local dom) then fail c (PErr (Some id) "NOT_IMPLEMENTED")
+            else if match alookup hd (chans (st c)) with Some _ => false | None => true end
+                    && (max_channels cfg <=? N.of_nat (length (chans (st c))))
+                 then fail c (PErr (Some id) "SERVER_OVERLOADED")
             else
               let created := match alookup hd (chans (st c)) with Some _ => false | None => true end in
               let ch := match alookup hd (chans (st c)) with Some ch => ch | None => new_chan end in
